@@ -287,10 +287,11 @@ func (s *simSink) WriteTo(buf []byte, addrPort netip.AddrPort) error {
 	}
 	if f, ok := w.fault(h, "write"); ok {
 		if f.Stall > 0 {
+			// a slow send: the probe was handed to the network at `now` (that instant is the RTT reference and the
+			// pacing reference); the call only returns - and replies are only caused - after the stall
 			w.mu.Unlock()
 			time.Sleep(f.Stall)
 			w.mu.Lock()
-			now = time.Now()
 		} else {
 			h.Calls = append(h.Calls, Call{Op: "write", At: now, Err: errStr(f.Err)})
 			w.mu.Unlock()
